@@ -4,7 +4,7 @@ import signal
 from .. import core, extract
 from ..core import Suite
 
-LEAN_TARGETS = ['Uds.Props.C04', 'Uds.Tie.Groups', 'Uds.Props.C04Unlock']
+LEAN_TARGETS = ['Uds.Props.C04', 'Uds.Tie.Groups', 'Uds.Props.C04Unlock', 'Uds.Props.C04Hist']
 ASSUMPTIONS = [
     'the client configuration is itself valid (dtc_snapshot_did_size in 1..8, extended_data_size given and in range, IO / DID entries well formed); user codecs decode any byte string of their length',
     'documented outcomes: a returned response, NegativeResponse / InvalidResponse / UnexpectedResponse / Timeout exceptions, ConfigError, NotImplementedError (fields wider than 64 bits)',
@@ -195,4 +195,10 @@ def suite_reentrant(ctx):
     return reentrant.suite_reentrant(ctx)
 
 
-SUITES = [suite_malformed, suite_codec_raises, suite_frames, suite_reentrant]
+def suite_hist(ctx):
+    """whole histories against the model's hrun, read for this property (harness/histsw.py)"""
+    from .. import histsw
+    return histsw.suite_hist(ctx, 'C04')
+
+
+SUITES = [suite_malformed, suite_codec_raises, suite_frames, suite_reentrant, suite_hist]
